@@ -661,6 +661,21 @@ class ComputeGraph(MultiDiGraph):
         code_gen = self.backend
         code_gen.code.clear()
 
+        # Differentiation introduces function calls that the vector field itself may not contain (cos from sin,
+        # sign from absv, ...).  Register every function used by a Jacobian entry with the backend, so that its
+        # import / helper definition is part of the generated module.
+        all_entries = list(J0_entries.values()) + [e for entries in J_hist.values() for e in entries.values()]
+        for d_expr in all_entries:
+            try:
+                d_resolved = self._resolve_derivatives(d_expr)
+            except Exception:                                           # pragma: no cover
+                continue
+            for fn in d_resolved.atoms(sp.Function):
+                try:
+                    code_gen.get_op(fn.func.__name__)
+                except (KeyError, TypeError):
+                    pass
+
         # Imports that the Jacobian assembly emits.  Must be declared BEFORE
         # generate_func_head, which materialises imports into the source file.
         code_gen.declare_local_array_imports()   # backend-specific (numpy / jax.numpy / ...)
